@@ -111,6 +111,9 @@ def gen_plan(seed, tier="quick"):
         "victim": r.choice([None, None, 0, nproc - 1, r.randrange(nproc)]),
         "order": r.choice([None, None, "reverse", "shuffle"]),
         "sched_seed": r.randrange(1 << 30),
+        "io_mode": r.random() < 0.4,          # pre-emption decisions only around lines that touch files / store into arrays
+        # hold one worker at one of its file-touching lines until all others have finished
+        "delay": ({"tf": r.random(), "ef": r.random(), "where": r.choice(["end", "end", "start", "any"])} if r.random() < 0.4 else None),
         "trace": None,
     }
     return plan
@@ -126,6 +129,18 @@ def _reject(plan):
     longer than that (every recording of the history, incl. the first run of an append)."""
     shortest = min(plan["ns"], plan["ns_first"]) if plan["append"] else plan["ns"]
     return bool(plan["reject"]) and shortest >= 12000
+
+
+def _delay_at(d, cnt):
+    """Index of the file-touching line at which the task is held: races cluster where a task sets itself up
+    (check-then-act on shared files) and where it merges its results, so those windows get most of the weight."""
+    w = d.get("where", "any")
+    span = min(8, cnt)
+    if w == "end":
+        return cnt - 1 - int(d["ef"] * span)
+    if w == "start":
+        return int(d["ef"] * span)
+    return int(d["ef"] * cnt)
 
 
 def _isz(plan):
@@ -182,7 +197,9 @@ def _sim_run(plan, binf, out, nproc, append, W, schedule):
     SIM.reset(root=W["root"], record_extents=True)
     SIM.capture = True
     SIM.tagger = lambda: SCHED.current
-    if schedule is None:
+    if schedule is not None and schedule.get("count_io"):
+        SCHED.reset(rng=None, count_io=True)      # sequential pre-pass that counts each task's file-touching lines
+    elif schedule is None:
         SCHED.reset(rng=None)                     # one worker at a time, submission order
     elif schedule.get("trace") is not None:
         SCHED.reset(trace=schedule["trace"])
@@ -194,7 +211,8 @@ def _sim_run(plan, binf, out, nproc, append, W, schedule):
         elif schedule.get("order") == "shuffle":
             order = list(range(nproc))
             rr.shuffle(order)
-        SCHED.reset(rng=rr, p_switch=schedule["p_switch"], victim=schedule.get("victim"), order=order)
+        SCHED.reset(rng=rr, p_switch=(max(schedule["p_switch"], 0.3) if schedule.get("io_mode") else schedule["p_switch"]),
+                    victim=schedule.get("victim"), order=order, io_mode=bool(schedule.get("io_mode")), delay=schedule.get("delay"))
     SIM.active = True
     err = None
     try:
@@ -205,7 +223,7 @@ def _sim_run(plan, binf, out, nproc, append, W, schedule):
     finally:
         SIM.active = False
     return {"trace": list(SCHED.trace), "extents": SIM.extents, "events": SIM.events, "err": err,
-            "tasks": list(SCHED.task_log)}
+            "tasks": list(SCHED.task_log), "io_counts": dict(SCHED.io_counts)}
 
 
 def _real_joblib_run(plan, binf, out, W):
@@ -330,7 +348,7 @@ def _run(plan, base):
                 s2.close()
         for tag, nproc, schedule in (("ref", 1, None),
                                      ("sim", plan["nproc"], {"seed": plan["sched_seed"], "p_switch": plan["p_switch"],
-                                                             "victim": plan["victim"], "order": plan["order"], "trace": plan.get("trace")})):
+                                                             "victim": plan["victim"], "order": plan["order"], "trace": plan.get("trace"), "io_mode": plan.get("io_mode")})):
             od = base / f"out_{tag}"
             od.mkdir()
             out = od / "destriped.bin"
@@ -348,6 +366,15 @@ def _run(plan, base):
                     offset = 0          # plain re-run into the same place: nothing of the earlier run may survive
                     first_bytes = b""
                     probe("rerun_over_earlier_output")
+            if tag == "sim" and plan.get("delay") and nproc > 1 and not plan["append"] and not plan.get("rerun") and schedule.get("trace") is None:
+                pre = base / "out_pre"
+                pre.mkdir()
+                rp = _sim_run(plan, binf, pre / "destriped.bin", nproc, False, W, {"count_io": True})
+                t = min(nproc - 1, int(plan["delay"]["tf"] * nproc))
+                cnt = rp["io_counts"].get(t, 0)
+                if cnt and not rp["err"]:
+                    schedule = dict(schedule, delay={"task": t, "at": _delay_at(plan["delay"], cnt)})
+                    probe("one_worker_held_at_a_file_touching_line")
             res = _sim_run(plan, binf, out, nproc, plan["append"], W, schedule)
             stats["steps"] += sum(t[1] for t in res["trace"])
             if res["err"]:
@@ -559,7 +586,7 @@ def _check_reference(plan, O, out, offset, nc_out, fs, rec, sigbase, W):
 
 
 def shrink_candidates(plan):
-    for key, val in (("append", False), ("out_dtype", "int16"), ("mixed_gains", False), ("rerun", False), ("form", "bin"), ("qc_path", False), ("saturate", []), ("wrot", "none"), ("reject", False), ("ns2add", 0),
+    for key, val in (("append", False), ("delay", None), ("io_mode", False), ("out_dtype", "int16"), ("mixed_gains", False), ("rerun", False), ("form", "bin"), ("qc_path", False), ("saturate", []), ("wrot", "none"), ("reject", False), ("ns2add", 0),
                      ("drop_sync", False), ("default_k", False), ("order", None), ("victim", None), ("p_switch", 0.0),
                      ("k_filter", False)):
         if plan.get(key) != val:
